@@ -16,9 +16,13 @@ from .. import core
 
 
 class Block(object):
-    def __init__(self, name, family, A, B=None, C=None, prefix=None, meta=None):
+    """twin: a second family whose prefix is used for the *same* body right after each point
+    (v3.0 / v3.1): forces collisions in anything keyed without the minor version."""
+
+    def __init__(self, name, family, A, B=None, C=None, prefix=None, meta=None, twin=None):
         self.name = name
         self.family = family
+        self.twin = twin
         self.A = list(A)
         self.B = list(B) if B is not None else [("", {})]
         self.C = list(C) if C is not None else [("", {})]
@@ -26,17 +30,25 @@ class Block(object):
         self.meta = meta or {}
 
     def size(self):
-        return len(self.A) * len(self.B) * len(self.C)
+        return len(self.A) * len(self.B) * len(self.C) * (2 if self.twin else 1)
+
+    def twin_block(self):
+        from ..ref import tables
+        t = Block(self.name, self.twin, [], prefix=tables.PREFIX[self.twin], meta=self.meta)
+        t.A, t.B, t.C = self.A, self.B, self.C
+        return t
 
 
 _BLOCKS = None
 _VISIT = None
 _NEWACC = None
+_TIER = None
 
 
-def _task(t):
+def _task(t, stop_at=None):
     bi, lo, hi = t
     blk = _BLOCKS[bi]
+    twin = blk.twin_block() if blk.twin else None
     acc = _NEWACC()
     acc["_task"] = t
     A, B, C = blk.A, blk.B, blk.C
@@ -64,18 +76,25 @@ def _task(t):
                 vec = prefix + head
                 asg = dab
             visit(acc, blk, vec, asg, base_idx + ic)
+            if twin is not None:
+                visit(acc, twin, twin.prefix + vec[len(prefix):], asg, base_idx + ic)
+            if stop_at is not None and any(c.get("input") == stop_at for c in acc.get("bad", [])):
+                return acc
+    for c in acc.get("bad", []):
+        c.setdefault("task", [blk.name, lo, hi])
+        c.setdefault("tier", _TIER)
     return acc
 
 
 def run(ctx, blocks, visit, new_acc, tasks_per_block=None):
     """Visit every point of every block. Returns the list of accumulators in task order."""
-    global _BLOCKS, _VISIT, _NEWACC
+    global _BLOCKS, _VISIT, _NEWACC, _TIER
     from ..ref import tables
 
     for b in blocks:
         if b.prefix is None:
             b.prefix = tables.PREFIX[b.family]
-    _BLOCKS, _VISIT, _NEWACC = blocks, visit, new_acc
+    _BLOCKS, _VISIT, _NEWACC, _TIER = blocks, visit, new_acc, ctx.tier
     tasks = []
     total = sum(b.size() for b in blocks) or 1
     for bi, b in enumerate(blocks):
@@ -84,11 +103,32 @@ def run(ctx, blocks, visit, new_acc, tasks_per_block=None):
         for lo, hi in core.split_range(n, want):
             tasks.append((bi, lo, hi))
     order = ctx.rot(range(len(tasks)))
-    out = core.pool_map(_task, [tasks[i] for i in order])
+    out = core.pool_map(_task, [tasks[i] for i in order], fresh=True)
     accs = [None] * len(tasks)
     for i, a in zip(order, out):
         accs[i] = a
     return accs
+
+
+def replay_task(blocks, visit, new_acc, case):
+    """Re-run, in this (fresh) process, the task that produced `case` up to the failing input.
+    Returns (violates, detail)."""
+    global _BLOCKS, _VISIT, _NEWACC, _TIER
+    from ..ref import tables
+
+    for b in blocks:
+        if b.prefix is None:
+            b.prefix = tables.PREFIX[b.family]
+    _BLOCKS, _VISIT, _NEWACC, _TIER = blocks, visit, new_acc, case.get("tier")
+    name, lo, hi = case["task"]
+    for bi, b in enumerate(blocks):
+        if b.name == name:
+            acc = _task((bi, lo, hi), stop_at=case["input"])
+            hit = [c for c in acc.get("bad", []) if c.get("input") == case["input"]]
+            if hit:
+                return True, hit[0].get("what", "")
+            return False, "the task no longer fails on %r (%d points replayed)" % (case["input"], acc.get("n", 0))
+    raise core.HarnessError("block %r not found for task replay" % name)
 
 
 def parts(metrics, domains, absent_as=None):
